@@ -442,6 +442,69 @@ def load_shadow():
     return _SHADOW
 
 
+# ---- the kind of *object* a size limit / batch size is given as (sixth pass)
+# The quantifier says "all size limits 1..N+1": a limit is an integer, and integers reach `from_arrow(size=)`,
+# `frame.arrow(size)` and `_RowsIterator(batch_size=, max_size=)` as other objects than a built-in int - what
+# numpy / pandas arithmetic returns (numpy.int64 ... uint8), a bool (True is the integer 1), an int subclass
+# (an IntEnum member, a wrapped id).  The unchanged tree treats each of them as the integer it is (measured:
+# design_notes, "Sixth pass"), so "cut to the requested size" is demanded for them.  Numbers with an integral
+# value that are not integers (2.0, Fraction(2), Decimal(2)) are accepted by the unchanged `from_arrow` and
+# refused with a TypeError by `frame.arrow` (`head` slices with it): for those the oracle accepts a loud refusal
+# and demands only that a conversion that *returns* is cut to the size - never silently everything.
+# kind name -> class of the kind (the name the generated guard's type test is evaluated on in the model)
+SIZE_KIND_CLASS = {
+    "int": "int", "bool": "bool", "int-subclass": "int-subclass",
+    "np.int8": "numpy-integer", "np.int16": "numpy-integer", "np.int32": "numpy-integer", "np.int64": "numpy-integer",
+    "np.uint8": "numpy-integer", "np.uint16": "numpy-integer", "np.uint32": "numpy-integer", "np.uint64": "numpy-integer",
+    "np.intp": "numpy-integer",
+    "float": "float", "np.float64": "float", "Fraction": "other-real", "Decimal": "other-real",
+}
+SIZE_KINDS_DEMANDED = tuple(k for k, v in SIZE_KIND_CLASS.items() if v in ("int", "bool", "int-subclass", "numpy-integer"))
+SIZE_KINDS_LOOSE = tuple(k for k in SIZE_KIND_CLASS if k not in SIZE_KINDS_DEMANDED)
+
+
+class _IntSubclass(int):
+    """An int subclass (what an IntEnum member or a typed id is to `isinstance(x, int)` / `type(x) is int`)."""
+    __slots__ = ()
+
+
+def size_kind_ok(kind, value):
+    """Is `value` (an int >= 1) representable as an object of this kind with that integer value?"""
+    if kind is None or kind == "int":
+        return True
+    if kind not in SIZE_KIND_CLASS or not isinstance(value, int) or isinstance(value, bool):
+        return False
+    if kind == "bool":
+        return value == 1
+    if kind.startswith("np.") and kind != "np.float64":
+        import numpy
+        info = numpy.iinfo(getattr(numpy, kind[3:]))
+        return info.min <= value <= info.max
+    return abs(value) < 2**53
+
+
+def mk_size(kind, value):
+    """The argument object: the integer `value` as an object of kind `kind` (None stays None)."""
+    if value is None or kind is None or kind == "int":
+        return value
+    if kind == "bool":
+        return bool(value)
+    if kind == "int-subclass":
+        return _IntSubclass(value)
+    if kind.startswith("np."):
+        import numpy
+        return getattr(numpy, kind[3:])(value)
+    if kind == "float":
+        return float(value)
+    if kind == "Fraction":
+        import fractions
+        return fractions.Fraction(value)
+    if kind == "Decimal":
+        import decimal
+        return decimal.Decimal(value)
+    raise ValueError("size kind %r" % (kind,))
+
+
 # iterables of tables that are neither a generator object, a list nor a tuple: the statement speaks of "a sequence
 # of tables", from_arrow's docstring of "an iterable"; what happens to them is observed and counted, not demanded
 OTHER_ITERABLES = {
@@ -478,7 +541,8 @@ def _run_iter_impl(case, truth, handed, process_table):
     from orso import DataFrame
 
     via = case.get("via", "from_arrow")
-    size = case.get("size")
+    size = mk_size(case.get("size_kind"), case.get("size"))
+    batch = mk_size(case.get("batch_kind"), case.get("batch"))
     arg = handed
     if via == "generator":
         arg = (t for t in truth)
@@ -523,7 +587,7 @@ def _run_iter_impl(case, truth, handed, process_table):
             # builds it), so that every batch size above and below the table lengths is exercised cheaply
             it0, schema = oc.from_arrow(handed)
             try:
-                it = type(it0)(tables=iter(list(truth)), row_factory=it0.row_factory, batch_size=case["batch"],
+                it = type(it0)(tables=iter(list(truth)), row_factory=it0.row_factory, batch_size=batch,
                                max_size=float("inf") if size is None else size)
             except (TypeError, AttributeError) as e:
                 return {"unavailable": "%s: %s" % (type(e).__name__, str(e)[:120])}
@@ -600,6 +664,12 @@ def _iter_oracle(case, tables, out):
             obs.append("other-iterable:%s:rejected:%s" % (case["via"], out["raised"].split(":")[0]))
             return []
         obs.append("other-iterable:%s:accepted" % case["via"])  # …and then judged like any other conversion
+    if case.get("size_kind") or case.get("batch_kind"):
+        obs.append("size-object:%s%s" % (case.get("size_kind") or "int", ",batch-object:" + case["batch_kind"] if case.get("batch_kind") else ""))
+    if "raised" in out and case.get("size_kind") in SIZE_KINDS_LOOSE and out["raised"].split(":")[0] in ("TypeError", "ValueError"):
+        # an integral number that is not an integer, refused loudly: nothing of the statement is broken
+        obs.append("size-object-refused:%s:%s" % (case["size_kind"], out["raised"].split(":")[0]))
+        return []
     if "raised" in out:
         if rejected and out["raised"].startswith("ValueError: Unable to map"):
             obs.append("ext-rejected:" + rejected[0])  # no entry in arrow_type_map (see the `field` cases)
@@ -701,12 +771,17 @@ def iter_model_line(case, tables):
         # DataFrame.from_arrow(tables) (lazily backed, no size) then arrow(size): the `seq` op with that one call
         names = list(tables[0].column_names)
         return "C11 seq " + wire.line(names, "arrow", enc_tables, [["arrow", case.get("size")]])
+    kc = SIZE_KIND_CLASS[case["size_kind"]] if case.get("size_kind") else None
     if case.get("via") == "iterator":
+        # (the class takes `max_size` as it comes: no guard of its own looks at the kind of object)
         return "C11 iterb " + wire.line(enc_tables, case.get("size"), case["batch"])
     shape = {"from_arrow": "list", "DataFrame": "list", "tuple": "tuple", "generator": "generator",
              "single": "single"}.get(case.get("via", "from_arrow"))
     if shape is not None:
         # the shape of the argument goes to the model too: from_arrow's input dispatch is generated from the source
+        if kc is not None:
+            # ... and the kind of object the size is: the guard's type test (if it has one) is generated too
+            return "C11 iter " + wire.line(enc_tables, case.get("size"), shape, kc)
         return "C11 iter " + wire.line(enc_tables, case.get("size"), shape)
     return "C11 iter " + wire.line(enc_tables, case.get("size"))
 
@@ -761,7 +836,7 @@ def run_roundtrip_impl(case):
     names = list(case["names"])
     if len(names) != len(types) or any(not isinstance(x, str) for x in names):
         raise ValueError("bad names")
-    size = case.get("size")
+    size = mk_size(case.get("size_kind"), case.get("size"))
     try:
         if case.get("lazy"):
             df = DataFrame(rows=(r for r in rows), schema=names)
@@ -812,6 +887,9 @@ def roundtrip_oracle(case, out, rows):
 
 
 def roundtrip_model_line(case, rows):
+    if case.get("size_kind"):
+        return "C11 roundtrip " + wire.line(list(case["names"]), [[canon(c) for c in r] for r in rows], case.get("size"),
+                                            SIZE_KIND_CLASS[case["size_kind"]])
     return "C11 roundtrip " + wire.line(list(case["names"]), [[canon(c) for c in r] for r in rows], case.get("size"))
 
 
@@ -2185,6 +2263,13 @@ def valid_case(c):
                 return False
             if c.get("size") is not None and (not isinstance(c["size"], int) or c["size"] < 1):
                 return False
+            if c.get("size_kind") is not None and (c.get("size") is None or not size_kind_ok(c["size_kind"], c["size"])):
+                return False
+            if c.get("size_kind") in SIZE_KINDS_LOOSE and c.get("via", "from_arrow") not in ("from_arrow", "generator", "tuple", "single"):
+                return False
+            if c.get("batch_kind") is not None and (c.get("via") != "iterator" or c["batch_kind"] not in SIZE_KINDS_DEMANDED
+                                                    or not size_kind_ok(c["batch_kind"], c["batch"])):
+                return False
             ts = build_tables(c)
             # a field declared non-nullable must not hold nulls
             for t in ts:
@@ -2279,6 +2364,9 @@ def valid_case(c):
             if not c["types"]:
                 return False
             if c.get("size") is not None and (not isinstance(c["size"], int) or c["size"] < 0):
+                return False
+            if c.get("size_kind") is not None and (c.get("size") is None or c["size"] < 1 or c["size_kind"] not in SIZE_KINDS_DEMANDED
+                                                   or not size_kind_ok(c["size_kind"], c["size"])):
                 return False
             out, _ = run_roundtrip_impl(c)
             return True
@@ -2905,6 +2993,37 @@ def exhaustive_iterator_cases(nmax, kmax, batches=(1, 2, 3, 7)):
                         yield {"kind": "iter", "cols": SPLIT_COLS, "tables": tables, "size": size, "via": "iterator", "batch": b}
 
 
+def size_object_cases():
+    """Every kind of size object x every limit 1..N+1 over 5 rows in two tables (and a zero-row table between them):
+    `from_arrow(size=)` as a list / generator / tuple of tables, `DataFrame.from_arrow(...).arrow(size)`, `frame.arrow(size)`
+    on an eager frame (round trip), `_RowsIterator` driven directly with the limit and the batch size as such objects."""
+    rows = split_rows(5)
+    tables = [[rows[:3]], [[]], [rows[3:]]]
+    n = len(rows)
+    for kind in SIZE_KIND_CLASS:
+        if kind == "int":
+            continue
+        for size in range(1, n + 2):
+            if not size_kind_ok(kind, size):
+                continue
+            for via in ("from_arrow", "generator", "tuple"):
+                yield {"kind": "iter", "cols": SPLIT_COLS, "tables": tables, "size": size, "size_kind": kind, "via": via}
+            if kind not in SIZE_KINDS_DEMANDED:
+                continue
+            yield {"kind": "iter", "cols": SPLIT_COLS, "tables": tables, "size": size, "size_kind": kind, "via": "DataFrame.arrow"}
+            for b in (1, 2, 7):
+                if size_kind_ok(kind, b):
+                    yield {"kind": "iter", "cols": SPLIT_COLS, "tables": tables, "size": size, "size_kind": kind, "via": "iterator",
+                           "batch": b, "batch_kind": kind}
+            yield {"kind": "iter", "cols": SPLIT_COLS, "tables": tables, "size": size, "via": "iterator", "batch": 2 if kind != "bool" else 1,
+                   "batch_kind": kind}
+            for lazy in (False, True):
+                c = {"kind": "roundtrip", "names": ["n", "s"], "types": ["int64", "string"], "rows": rows, "size": size, "size_kind": kind}
+                if lazy:
+                    c["lazy"] = True
+                yield c
+
+
 def exhaustive_type_cases(full_grid):
     for t in ORSO_TYPES:
         if t == "DECIMAL":
@@ -3251,6 +3370,16 @@ def random_iter_case(ctx, quiet_known=False, ext=False):
     if "via" not in case and tables and rng.random() < 0.3:
         case["via"] = "iterator"
         case["batch"] = rng.choice([1, 2, 3, 5, max(1, n - 1), max(1, n), n + 1, 10000])
+    # the limit (and the batch size) as another kind of integer object
+    if size is not None and case.get("via") != "DataFrame" and rng.random() < 0.2:
+        loose_ok = case.get("via", "from_arrow") in ("from_arrow", "generator", "tuple", "single")
+        kinds = [k_ for k_ in SIZE_KIND_CLASS if k_ != "int" and size_kind_ok(k_, size) and (loose_ok or k_ in SIZE_KINDS_DEMANDED)]
+        if kinds:
+            case["size_kind"] = rng.choice(kinds)
+    if case.get("via") == "iterator" and rng.random() < 0.2:
+        kinds = [k_ for k_ in SIZE_KINDS_DEMANDED if k_ != "int" and size_kind_ok(k_, case["batch"])]
+        if kinds:
+            case["batch_kind"] = rng.choice(kinds)
     return case
 
 
@@ -3281,6 +3410,10 @@ def random_roundtrip_case(ctx, quiet_known=False):
     case = {"kind": "roundtrip", "names": names, "types": types, "rows": rows, "size": size}
     if rng.random() < 0.3:
         case["lazy"] = True
+    if size and rng.random() < 0.2:
+        kinds = [k_ for k_ in SIZE_KINDS_DEMANDED if k_ != "int" and size_kind_ok(k_, size)]
+        if kinds:
+            case["size_kind"] = rng.choice(kinds)
     return case
 
 
@@ -3835,7 +3968,9 @@ def run(ctx):
     _batched(ctx, many_batches_cases())
     _batched(ctx, SCHEMA_DIFFERS)
     _batched(ctx, other_iterable_cases())
-    mark("corpus+per-type+ext+many-batches")
+    n_sizeobj = _batched(ctx, size_object_cases())
+    ctx.note("size_object_cases", n_sizeobj)
+    mark("corpus+per-type+ext+many-batches+size-objects")
     n_names = _batched(ctx, name_cases())
     mark("names")
     _batched(ctx, seq_corpus())
